@@ -90,7 +90,7 @@ def rf_configs(draw, spf_cap=4096, boundary_p=0.6, force=None):
     form = draw(st.sampled_from(["struct", "native", "interleaved"]))
     nsub = draw(st.sampled_from([1, 1, 1, 2, 2, 3, 4, 8, 32]))
     cont = draw(st.integers(0, 1))
-    comp = draw(st.sampled_from([0, 0, 0, 0, 0, 0, 0, 1, 6, 9]))
+    comp = draw(st.sampled_from([0, 0, 0, 0, 0, 0, 0, 1, 6, 9, 2, 3, 4, 5, 7, 8]))
     checksum = draw(st.sampled_from([0, 0, 0, 1]))
     cfg = {
         "kind": kind, "size": size, "order": order, "cplx": cplx, "form": form, "nsub": nsub,
